@@ -29,6 +29,7 @@ import (
 	"github.com/ErdemOzgen/blackdagger/internal/persistence/model"
 	"github.com/ErdemOzgen/blackdagger/verifharness/agentkit"
 	"github.com/ErdemOzgen/blackdagger/verifharness/rep"
+	"github.com/ErdemOzgen/blackdagger/verifharness/sim"
 	"github.com/go-openapi/loads"
 	"pgregory.net/rapid"
 )
@@ -283,7 +284,23 @@ func (w *world) apply(c *Case, idx int, o Op) string {
 			cancel()
 			return "harness-inconclusive: background run did not come up"
 		}
-		time.Sleep(150 * time.Millisecond) // the agent's delayed 'running' status write has happened
+		// … and the agent's delayed "running" status write has happened: from then on
+		// (s1 sleeps for 30 s) nothing is written by the run on its own, so that a
+		// before/after comparison around an action sees only what the action did.
+		ok = false
+		deadline = time.Now().Add(10 * time.Second * time.Duration(sim.LoadFactor()))
+		for time.Now().Before(deadline) {
+			if sf, err := w.h.NewDataStores().HistoryStore().FindByRequestID(file, id); err == nil && sf.Status.Status == scheduler.StatusRunning {
+				ok = true
+				break
+			}
+			time.Sleep(10 * time.Millisecond)
+		}
+		if !ok {
+			cancel()
+			return "harness-inconclusive: background run did not record its running status"
+		}
+		time.Sleep(30 * time.Millisecond)
 		w.bg[i] = b
 		w.labels["state:running"] = true
 		return ""
@@ -596,27 +613,56 @@ func trunc(s string, n int) string {
 	return s
 }
 
+// runOps executes the case in a fresh world; it returns the first non-empty
+// verdict of an op ("" if none) and the world (closed by the caller).
+func runOps(t rep.Fataler, c *Case) (string, *world) {
+	w, err := newWorld(c)
+	if err != nil {
+		t.Fatalf("world: %v", err)
+	}
+	for i, o := range c.Ops {
+		if msg := w.apply(c, i, o); msg != "" {
+			return msg, w
+		}
+	}
+	return "", w
+}
+
 func check(t rep.Fataler, c Case) {
 	rep.Begin(ID, "api", c)
 	snap := agentkit.EnvSnapshot()
 	defer agentkit.RestoreEnv(snap)
-	w, err := newWorld(&c)
-	if err != nil {
-		t.Fatalf("world: %v", err)
+	msg, w := runOps(t, &c)
+	defer func() { w.close() }()
+	live := false
+	for _, o := range c.Ops {
+		if o.Kind == "bg" {
+			live = true
+		}
 	}
-	defer w.close()
-	for i, o := range c.Ops {
-		msg := w.apply(&c, i, o)
-		if strings.HasPrefix(msg, "harness-inconclusive:") {
-			rep.Inconclusive(msg)
+	if msg != "" && live && !strings.HasPrefix(msg, "harness") {
+		// A case with a run in progress depends on real time (the live agent answers
+		// on its socket, writes its status on its own): a verdict has to show up on an
+		// identical second execution before it is reported; otherwise it is
+		// inconclusive, with the message.
+		w.close()
+		first := msg
+		agentkit.RestoreEnv(snap)
+		msg, w = runOps(t, &c)
+		if msg == "" {
+			rep.Inconclusive("observed once, not on an identical second execution (timing of the live run): " + first)
 			return
 		}
-		if strings.HasPrefix(msg, "harness:") {
-			t.Fatalf("%s", msg)
-		}
-		if msg != "" {
-			rep.Fail(t, ID, "api", c, nil, "%s", msg)
-		}
+	}
+	if strings.HasPrefix(msg, "harness-inconclusive:") {
+		rep.Inconclusive(msg)
+		return
+	}
+	if strings.HasPrefix(msg, "harness:") {
+		t.Fatalf("%s", msg)
+	}
+	if msg != "" {
+		rep.Fail(t, ID, "api", c, nil, "%s", msg)
 	}
 	states := 0
 	var ls []string
